@@ -403,9 +403,16 @@ class HModel(BaseModel):
             raise Reject("LIB", "missing id")
         if n1 not in self.edges[e1] or n2 not in self.edges[e2]:
             raise Reject("LIB", "node not in edge")
-        if n1 == n2 and e1 == e2:
+        def same(a, b):
+            # (a numpy integer compared with a tuple label broadcasts to an array)
+            try:
+                return bool(a == b)
+            except Exception:
+                return False
+
+        if same(n1, n2) and same(e1, e2):
             return  # the identity swap preserves everything
-        if n1 == n2 or e1 == e2 or n2 in self.edges[e1] or n1 in self.edges[e2]:
+        if same(n1, n2) or same(e1, e2) or n2 in self.edges[e1] or n1 in self.edges[e2]:
             raise Reject("LIB", "swap would change a size or a degree")
         self.edges[e1].discard(n1)
         self.edges[e1].add(n2)
